@@ -203,22 +203,41 @@ Fixpoint scope_keys (fuel : nat) (frags : list fragment_def) (l : list csel) : l
 Fixpoint nodup_str (l : list str) : bool :=
   match l with [] => true | x :: l' => negb (mem_str x l') && nodup_str l' end.
 
-Fixpoint distinct_keys (fuel : nat) (frags : list fragment_def) (l : list csel) {struct fuel} : bool :=
-  match fuel with
-  | 0 => true
-  | Datatypes.S fuel' =>
-      nodup_str (scope_keys fuel frags l)
-      && forallb (fun x =>
-           match x with
-           | CField _ _ _ sub => distinct_keys fuel' frags sub
-           | CInline _ _ sub => distinct_keys fuel' frags sub
-           | CSpread _ _ => true
-           end) l
+(* every selection set nested in a selection has pairwise distinct keys *)
+Fixpoint sel_distinct (fuel : nat) (frags : list fragment_def) (x : csel) {struct x} : bool :=
+  match x with
+  | CField _ _ _ sub => nodup_str (scope_keys fuel frags sub) && forallb (sel_distinct fuel frags) sub
+  | CInline _ _ sub => nodup_str (scope_keys fuel frags sub) && forallb (sel_distinct fuel frags) sub
+  | CSpread _ _ => true
   end.
+
+Definition distinct_keys (fuel : nat) (frags : list fragment_def) (l : list csel) : bool :=
+  nodup_str (scope_keys fuel frags l) && forallb (sel_distinct fuel frags) l.
 
 Definition doc_distinct_keys (fuel : nat) (op : operation) : bool :=
   distinct_keys fuel (o_frags op) (o_sel op)
   && forallb (fun fr => distinct_keys fuel (o_frags op) (fr_sel fr)) (o_frags op).
+
+(* the selection sets of a document: the operation's, the fragments', and every nested one *)
+Fixpoint sel_scopes (x : csel) : list (list csel) :=
+  match x with
+  | CField _ _ _ sub => sub :: flat_map sel_scopes sub
+  | CInline _ _ sub => sub :: flat_map sel_scopes sub
+  | CSpread _ _ => []
+  end.
+Definition scopes (l : list csel) : list (list csel) := l :: flat_map sel_scopes l.
+Definition doc_scopes (op : operation) : list (list csel) :=
+  scopes (o_sel op) ++ flat_map (fun fr => scopes (fr_sel fr)) (o_frags op).
+
+(* OverlappingFieldsCanBeMerged, whatever its pairwise condition [cond] is
+   (same response shape, same field and arguments, mergeable sub-selections):
+   it constrains the keys that occur at two different positions of one
+   flattened selection set *)
+Definition merge_rule (cond : list csel -> str -> Prop) (fuel : nat) (op : operation) : Prop :=
+  forall sc, In sc (doc_scopes op) ->
+    forall i j k, i <> j ->
+      nth_error (scope_keys fuel (o_frags op) sc) i = Some k ->
+      nth_error (scope_keys fuel (o_frags op) sc) j = Some k -> cond sc k.
 
 Definition root_of (s : schema) (k : op_kind) : option str :=
   match k with OQuery => s_query s | OMutation => s_mutation s | OSubscription => s_subscription s end.
